@@ -112,6 +112,11 @@ class C10(Prop):
             # update of the object, as the first one after a reset(), or after some good ones
             case['failing'] = {'where': rng.choice(['first', 'first', 'after-pre']), 'var': rng.choice(names),
                                'values': dict((k, rng.choice(lang.SMALL)) for k in names)}
+        elif len(names) >= 2 and pre >= 1 and rng.random() < 0.2:
+            # sparse post-reset inputs: some updates do not mention one of the variables (the monitor keeps the last
+            # value it was given - for a fresh monitor that is the variable's initial value).  "The same subsequent
+            # inputs" must give the same outputs, whatever was fed before reset()
+            case['sparse'] = [rng.choice(names) if rng.random() < 0.45 else None for _ in range(post)]
         return case
 
     def sd(self, case):
@@ -121,13 +126,13 @@ class C10(Prop):
             g = lang.from_jsonable(case['sub'])
             top = lang.map_formula(f, lambda h: lang.V('sub1') if h == g else h)
             return {'text': 'out = ' + lang.to_text(top), 'vars': names + ['sub1', 'out'],
-                    'subspecs': ['sub1 = ' + lang.to_text(g) + ';']}
-        return {'text': lang.to_text(f), 'vars': names}
+                    'subspecs': ['sub1 = ' + lang.to_text(g) + ';'], 'nostruct': bool(case.get('sparse'))}
+        return {'text': lang.to_text(f), 'vars': names, 'nostruct': bool(case.get('sparse'))}
 
-    def feed(self, m, names, data, ts):
+    def feed(self, m, names, data, ts, omit=None):
         out = []
         for i in range(len(ts)):
-            out.append(m.update(ts[i], [(k, data[k][i]) for k in names]))
+            out.append(m.update(ts[i], [(k, data[k][i]) for k in names if not (omit and omit[i] == k)]))
         return out
 
     def judge(self, case):
@@ -148,8 +153,10 @@ class C10(Prop):
             return v
         try:
             fresh = drive.Mon(case['kind'], sd, pastify=case['pastify'])
-            want = self.feed(fresh, names, case['post'], case['post_t'])
+            want = self.feed(fresh, names, case['post'], case['post_t'], case.get('sparse'))
             want_c = fresh.counter
+            if case.get('sparse'):
+                v.info['class:sparse-post-reset-inputs'] = 1
         except Exception as e:
             v.skip = 'fresh monitor raised %s' % type(e).__name__
             return v
@@ -181,13 +188,13 @@ class C10(Prop):
         if m.counter != 0:
             v.bad('counter-after-reset', '%s: counter=%r right after reset()' % (sd['text'], m.counter))
         try:
-            got = self.feed(m, names, case['post'], case['post_t'])
+            got = self.feed(m, names, case['post'], case['post_t'], case.get('sparse'))
         except Exception as e:
             v.bad('update-after-reset-raises:' + type(e).__name__, '%s: update after reset() raised %s: %s' % (
                 sd['text'], type(e).__name__, e))
             return v
         for i in range(npost):
-            if exp_nan is not None and exp_nan[i] != exp_nan[i]:
+            if exp_nan is not None and exp_nan[i] != exp_nan[i] and not case.get('sparse'):
                 continue
             if want[i] != want[i]:
                 continue
